@@ -44,4 +44,5 @@ func runC07(c *core.Ctx) {
 	h.singleApplier("C07.4c single-applier")
 	h.releaseEmptiesHolders("C07.5 release-empties-queue")
 	h.taskConstructors("C07.6 task-constructors")
+	h.queueDiscipline("C07.7 client-queue")
 }
